@@ -48,6 +48,9 @@ def gen(rng):
             steps.append(['d', wd + '/p1/p2', 0o750])
     d = wd + sub
     nm = G.pick_names(rng, 1, allow_invalid=False, trouble=0.6)[0]
+    if rng.random() < 0.08:
+        # an entry whose own name contains the info suffix (a stray .trashinfo somebody tidied away, a backup of one)
+        nm = rng.choice(['old.trashinfo', 'notes.trashinfo.bak', 'saved.trashinfo.d', 'a.trashinfo.trashinfo'])
     kind = rng.choice(G.KINDS)
     G.make_entry(rng, d + '/' + nm, kind, steps, aux)
     others = G.pick_names(rng, 3, allow_invalid=False, trouble=0.2)
@@ -179,8 +182,11 @@ def check(sim, case, st):
         between += 1
     rs = dict(procs[-1])
     snap2 = sim.snap()
-    if (T + '/files/' + N) not in snap2:
-        return []                  # purged by an intervening command (e.g. empty): premise gone
+    if (T + '/files/' + N) not in snap2 or (T + '/info/' + N + '.trashinfo') not in snap2:
+        # the commands in between (puts of OTHER files, trash-list, trash-rm of a pattern that matches nothing, trash-empty with a
+        # DAYS far beyond the age of x) have no business with x
+        return [('C02/entry-damaged-by-the-history-in-between/sort=-', 'after %r the entry %s/files/%s + its .trashinfo is no longer whole in the trash (payload there: %s, info there: %s)'
+                 % ([p_.get('argv', 'foreign') for p_ in procs[1:-1]], T, N, (T + '/files/' + N) in snap2, (T + '/info/' + N + '.trashinfo') in snap2))]
     if ML.resolve(snap2, rs.get('cwd', '/')) is None:
         return []
     res = []
